@@ -15,6 +15,13 @@ End to end (the property itself, evaluated on the returned tables, no model invo
 all subsets of <= 4 features x all permutations x column_ordering x PYTHONHASHSEED subprocesses x configurations
 (links -> index features, global filters -> filter features, dependencies requested too, multi-column features,
 name~i requests, three compute frameworks).
+Family `typed` (harness/c03_typed.py; coq/Model/StepTables.v over Model/Grouping.v): requests that declare >= 2 different data
+types in one feature group next to untyped requested features (also: types from return_data_type_rule, typed dependency
+instances, an untyped feature that is requested AND a dependency, two option classes), every permutation of small requests x
+column_ordering x pandas / pyarrow x hash seeds.  Every observed call of group_features_by_compute_framework_and_options, the
+steps of the plan and the partition of the requested features into the returned tables are compared with
+Grouping.group_items / StepTables.tables_of_steps evaluated in Coq under the observed set order (chk_typed); the statement is
+judged directly (every requested name in exactly one returned table, nothing else).
 Execution modes: a sample of the same ordered requests x orderings x configurations is run under SYNC, THREADING and
 MULTIPROCESSING (one Flight server for the whole check, shared by the worker subprocesses).  Planning -- every
 add_feature_to_collection call -- happens in the orchestrator's process before the run in every mode, and so does the
@@ -422,8 +429,14 @@ def run(rep: vlib.Reporter, tier: str, seed: int) -> None:
         "_add_index_feature / create_index_feature, get_initial_requested_features); tied by correspondence (T2) on the inputs below",
         "abstraction of Feature.__eq__ to (group, name, key): key 0 = child_options None, key 1 = child_options set; generated "
         "universes use empty options, no domain, no data type, one compute framework (checked on every recorded feature)",
-        "partition of the collection into steps (FeatureSets) and the columns a compute framework holds are NOT modelled: the "
-        "theorems take them as parameters, the harness observes them at each identify_naming_convention call",
+        "C03_exact / C03_one_table take the step of a feature as a function and the columns a compute framework holds as "
+        "parameters (observed at each identify_naming_convention call); that the planner's membership relation is a function is "
+        "proved for one feature group (Model/StepTables.v over Grouping.group_items) and for plans of the O-fragment (plan_O: one "
+        "framework, no links, no filter) and tied by the family `typed`; for plans with joins / filters / several frameworks the "
+        "steps are observed only",
+        "family typed: the (options, frameworks) class it_kb of a feature is read off its group options ({} -> 0, {'k': n} -> n), one "
+        "compute framework (checked per feature); generated groups have no dependency inside one feature group (one dependency "
+        "level per split; checked: the steps of the plan must equal the groups)",
         "Python str ordering = String.compare on printable ASCII (generators stay in ASCII)",
         "harness/c03_worker.py records calls by wrapping Engine.add_feature_to_collection, Engine.create_setup_execution_plan, "
         "ComputeFramework.identify_naming_convention, GlobalFilter.identity_matched_filters in the worker process (no change to /repo)"]
@@ -459,8 +472,10 @@ def run(rep: vlib.Reporter, tier: str, seed: int) -> None:
     unit_job = {"unit": {"seed": seed * 1000 + 999, "n": 20000 if big else 2000, "n_names": 3000 if big else 500}}
     nproc = max(2, min(12, vlib.NCPU - 2))
     t0 = time.time()
+    from harness import c03_typed
     with ThreadPoolExecutor(max_workers=nproc) as ex:
         mfuts = [ex.submit(run_worker, j, hs, tag) for (j, hs, tag, _) in mode_jobs]       # the longest jobs first
+        typed_finish = c03_typed.run_family(rep, tier, seed, ex.submit)
         futs = [ex.submit(run_worker, j, hs, tag) for (j, hs, tag, _) in jobs]
         ufut = ex.submit(run_worker, unit_job, int(os.environ.get("PYTHONHASHSEED", "0") or 0), "unit")
         results = [f.result() for f in futs]
@@ -816,6 +831,8 @@ def run(rep: vlib.Reporter, tier: str, seed: int) -> None:
         rep.finding("modes-start-method", f"worker processes start with {mp_obs.start_method()!r}: harness wrappers are not inherited",
                     {"kind": "e2e"}, found_input=False)
         found = True
+    # ---------------- declared types: grouping -> steps -> result tables (Model/StepTables.v)
+    found = typed_finish() or found
     rep.add("rule", "unit: PRNG name sets over 10 bases x 9 suffixes sharing prefixes and '~', 0-4 features, 0-7 columns, 4 ordering "
                     "values; e2e: 12 configurations (3 pools of 7 names over one 6-group graph with dependencies, a 2-level chain, a join, "
                     "multi-column features on a root and on a derived group, index columns, 0-2 links, 0-2 global filters, 3 compute "
@@ -824,7 +841,7 @@ def run(rep: vlib.Reporter, tier: str, seed: int) -> None:
                     "columns / e2e request with >= 2 names (distinct by configuration, name set, ordering). modes: per configuration 8 "
                     "(quick) / 96 (thorough) ordered requests of 1-4 names x 3 orderings, each run in SYNC, THREADING and MULTIPROCESSING "
                     "(one hash seed per configuration, rotating); non-trivial = request with >= 2 names (distinct by configuration, "
-                    "ordered request, ordering, mode)")
+                    "ordered request, ordering, mode); family typed: see typed_family.rule")
     for c in (ucases[:2] + [{k: v for k, v in r.items() if k in ("cfg", "hashseed", "req", "ordering", "tables", "trace")} for r in runs[100:400:100]]):
         rep.sample(c)
     from harness import srctie      # source-text tie (Props/SrcTie.v): definitions regenerated from the source text = the models
@@ -890,6 +907,9 @@ def replay_obj(c: dict) -> dict:
 def replay(path: str) -> int:
     r = json.load(open(path))["replay"]
     print(json.dumps(r, indent=1)[:3000])
+    if r.get("kind") == "typed":
+        from harness import c03_typed
+        return c03_typed.replay(r)
     if r.get("kind") == "srctie":
         from harness import srctie
         srctie.replay(r)
